@@ -5,13 +5,21 @@ generator) of the library to completion on a private virtual-time event loop.
 With the harness' senders answering immediately nothing in puresnmp suspends
 today, but an implementation is free to use tasks, futures or sleeps
 internally; running on a real (virtual-time) loop keeps the harnesses valid for
-such implementations.  A coroutine that cannot finish (waits for something
-nobody will provide) is a hard harness error.
+such implementations.  A coroutine that cannot finish - every sender of these
+harnesses answers at once and an hour of virtual time has been let pass for
+the library's own timers - waits for something nobody will provide: the
+library has dead-locked itself.  That is an outcome of the code under test
+(``NeverCompletes``), to be judged like any other outcome, not a harness error.
 """
 
 
 class HarnessError(Exception):
     """The harness itself is broken (never reported as a violation)."""
+
+
+class NeverCompletes(Exception):
+    """The operation is still pending although nothing it could wait for is
+    outstanding (the environment has answered everything, timers have run)."""
 
 
 _LOOP = None
@@ -49,7 +57,7 @@ def run(coro):
                 except Exception:  # noqa
                     pass
                 del loop.logged[:]
-                raise HarnessError("coroutine did not finish on the driver's event loop")
+                raise NeverCompletes("the operation waits for something nobody will provide (environment idle, no timer left)")
     del loop.logged[:]
     if task.cancelled():
         raise HarnessError("coroutine was cancelled")
